@@ -24,7 +24,7 @@ pub fn coq_str(x: &str) -> String {
         o
     }
 }
-pub fn coq_list<T, F: Fn(&T) -> String>(v: &[T], f: F) -> String {
+pub fn coq_list<T, F: FnMut(&T) -> String>(v: &[T], mut f: F) -> String {
     let mut o = String::from("[");
     for (i, x) in v.iter().enumerate() {
         if i > 0 {
